@@ -126,7 +126,7 @@ func runSPAO(r *core.Run) {
 // in-flight change kinds
 type flightChange struct {
 	name    string
-	covered bool // covered by a sender-side AS-host authenticator (router-generated SCMP)
+	covered bool                                 // covered by a sender-side AS-host authenticator (router-generated SCMP)
 	apply   func(r *core.Run, raw []byte) []byte // nil: not applicable to this packet
 }
 
